@@ -644,7 +644,8 @@ def run(ctx):
     # lists naming the same format twice (two costs of one format; with and without another format in between)
     for f in FORMATS:
         g = FORMATS[(FORMATS.index(f) + 1) % len(FORMATS)]
-        for lst in ([f, f + "@1"], [f + "@1", f], [f, g, f + "@1"], [g, f, f + "@1"]):
+        # ... and the very same hasher OBJECT listed twice ([f, f], [f, g, f]: a list assembled from two sources)
+        for lst in ([f, f + "@1"], [f + "@1", f], [f, g, f + "@1"], [g, f, f + "@1"], [f, f], [f, g, f], [g, f, f]):
             cases.append({"part": "context", "schemes": lst, "seed": seed})
             n_ctx += 1
     # copies of a context (deep copy / shallow copy / pickle round trip), taken before and after the original was used
